@@ -68,6 +68,10 @@ def generate(seed, tier):
         block['eqs'].append(['t', '2010.0 + 0.25*k'])
     case = {'kind': 'GEN', 'bundled': None, 'block': block, 'faults': faults, 'time_axis': ta,
             'knobs': {'reduction': S['knobs'].random() < 0.25}}
+    if S['swarm'].random() < 0.12:
+        # a small sweep budget configured on the generator: the emitted module must either converge within it or refuse
+        # loudly - never hand back the unconverged iterate
+        case['knobs']['gen_max_iterations'] = S['swarm'].choice(['2', '4', '8', '15', '40'])
     if S['swarm'].random() < 0.2:
         # the generator object has a history: another block was parsed and generated with it before
         pre, _m = gen_block(S['prelude'], 'contractive', T=S['prelude'].randint(1, 4), n=S['prelude'].randint(1, 4),
@@ -171,6 +175,9 @@ def execute(case):
                         stats['probes']['generator_reused'] = 1
                     else:
                         g = IterativeMachineGenerator(text_in, run_equation_reduction=red)
+                    if (case.get('knobs') or {}).get('gen_max_iterations') is not None:
+                        g.MaxIterations = str(case['knobs']['gen_max_iterations'])
+                        stats['probes']['small_sweep_budget_on_generator'] = 1
                 g.main(path)
         except Exception as ex:   # noqa
             gen_outcome = type(ex).__name__
